@@ -93,19 +93,26 @@ impl<W: Write + Seek> DbcWriter<W> {
         string_block.push(0);
         string_offsets.insert(String::new(), 0);
 
-        // Add all strings from the record set
+        // Add all strings from the record set, including those that are only
+        // referenced from array fields (e.g. localized string columns)
         for record in record_set.records() {
             for value in record.values() {
-                if let Value::StringRef(string_ref) = value {
-                    let string = record_set.get_string(*string_ref)?;
+                let elements: &[Value] = match value {
+                    Value::Array(elements) => elements,
+                    other => std::slice::from_ref(other),
+                };
+                for element in elements {
+                    if let Value::StringRef(string_ref) = element {
+                        let string = record_set.get_string(*string_ref)?;
 
-                    if !string_offsets.contains_key(string) {
-                        let offset = string_block.len() as u32;
-                        string_offsets.insert(string.to_string(), offset);
+                        if !string_offsets.contains_key(string) {
+                            let offset = string_block.len() as u32;
+                            string_offsets.insert(string.to_string(), offset);
 
-                        // Add the string to the block
-                        string_block.extend_from_slice(string.as_bytes());
-                        string_block.push(0); // Null terminator
+                            // Add the string to the block
+                            string_block.extend_from_slice(string.as_bytes());
+                            string_block.push(0); // Null terminator
+                        }
                     }
                 }
             }
